@@ -26,7 +26,8 @@ inductive Ev where
   | regOk (i p : Nat)                   -- AddPartitionsToTxn applied for partition `p`
   | grpOk (i : Nat)                     -- AddOffsetsToTxn applied
   | offStored (i o : Nat)               -- TxnOffsetCommit stored pending offset `o`
-  | append (i p r : Nat)                -- the leader of `p` appended record `r`
+  | append (i p r : Nat)                -- the leader of `p` appended record `r` (batch with the transactional flag)
+  | appendPlain (i p r : Nat)           -- … appended a batch of this producer that does NOT carry the transactional flag
   | ended (i : Nat) (c : Bool)          -- EndTxn applied to the ongoing transaction
   -- client requests (as they arrive at a broker)
   | produceReq (i p : Nat)              -- a transactional Produce for partition `p`
@@ -100,6 +101,10 @@ def tstep (s : TSt) : Ev → Except String TSt
         else if r ∈ s.app then .error "client: record appended twice"
         else if s.fate.isSome then .error "client: transactional data written after the EndTxn of the transaction"
         else .ok { s with toCore := { s.toCore with env := e', cur := r :: s.cur }, app := r :: s.app }
+  | .appendPlain _ _ _ =>
+    -- `create_builder`: every batch of a transactional producer is transactional; a plain batch is
+    -- readable at once and survives an abort
+    .error "client: a batch of the transactional producer was written without the transactional flag"
   | .ended i c =>
     if !s.isLive i then .error "env: EndTxn applied for a fenced producer"
     else if !s.env.ongoing then .error "env: EndTxn applied without an ongoing transaction"
